@@ -17,7 +17,7 @@ func c15(e *Env) {
 	r.Rule("every type × images (even cases: valid images of canonical values; odd cases: token-level wire images incl. all-pad text and zero counts; every 5th: images with 1..4 mutated bytes, accepted or not) × 3 dirty receivers: an object populated with longer lists / another union member / non-nil nested parts, an object that already decoded a different image, an object left behind by a failed decode of a truncated image. distinct_nontrivial = distinct (image hash, dirty kind) where the dirty receiver really differed from the fresh result before the decode")
 	r.Explain("Oracle: Decode(image) into a fresh object and into each dirty receiver agree on accept/reject, and on accept the two messages are ≡ (strict: list lengths, union member type, nested parts); additionally the same number of bytes is consumed.")
 	types := e.Types()
-	n := e.N(40, 1000)
+	n := e.N(200, 8000)
 	acc := newFeatAcc()
 	e.Par(len(types), func(i int) {
 		t := types[i]
